@@ -51,8 +51,16 @@ func check(c Case, u *vf.Unit) *vf.Verdict {
 		return nil
 	}
 	var res result
-	if v := bubble(func() { res = runCase(c) }); v != nil && res.v == nil {
-		res.v = v
+	if v := bubble(func() { res = runCase(c) }); v != nil {
+		if hung.Load() {
+			return v // res may still be written by the stuck goroutine
+		}
+		if res.v == nil {
+			res.v = v
+		}
+	}
+	if hung.Load() {
+		return nil
 	}
 	if res.v != nil {
 		if !vf.ReplayMode() {
@@ -83,7 +91,11 @@ func check(c Case, u *vf.Unit) *vf.Verdict {
 
 func runOnce(c Case) *vf.Verdict {
 	var res result
-	if v := bubble(func() { res = runCase(c) }); v != nil && res.v == nil {
+	v := bubble(func() { res = runCase(c) })
+	if hung.Load() {
+		return v
+	}
+	if v != nil && res.v == nil {
 		res.v = v
 	}
 	return res.v
@@ -305,8 +317,11 @@ func TestStreamsExhaustive(t *testing.T) {
 			}
 			run(cfg, newModel(cfg.p), nil, 0, false)
 		}
-	}); v != nil && failure == nil {
+	}); v != nil && (failure == nil || hung.Load()) {
 		failure = v
+		if hung.Load() {
+			failCase = *curCase.Load()
+		}
 	}
 	u.Extra("exhaustive", fmt.Sprintf("all sequences of length<=%d over %d symbolic actions %v (inapplicable actions pruned, nothing after a connection error), for perspective x stream type x incoming limit {1,2} x initial peer limit {0,1}", L, nSymbols, symNames))
 	if failure != nil {
